@@ -873,6 +873,9 @@ func (e *Engine) globalInitVal(g *ssa.Global) (Val, bool) {
 		}
 	}
 	v, ok := e.initVals[g]
+	if ok && e.P != nil {
+		e.P.noteInitRead(g)
+	}
 	return v, ok
 }
 
